@@ -1,6 +1,7 @@
 """C03 — Leaf model selection returns a best-validation iterate for every score history."""
 import itertools, json, math
 import numpy as np
+import torch
 from harness.common import *
 from harness import scripted as sc
 
@@ -96,3 +97,57 @@ def run(ck):
     bad = [meta[k] for k, v in res.items() if v is not True]
     ck.obligation(f'correspondence: {len(cases)} scripted histories through the real RFM.fit == Coq `run` on binary64 scores',
                   'correspondence', not bad, f'first mismatches: {bad[:4]}')
+
+    # ---------------- real fits: the returned pieces are bitwise the state of the first best evaluated iterate ----------------
+    # (no stubs: the real solve / AGOP update / snapshot / restore; state is copied at every validation call)
+    nr = np.random.default_rng(ck.seed + 3303)
+    kernels = [('l2', {}), ('l1', {}), ('lpq', dict(norm_p=1.5)), ('l2_high_dim', {}), ('sum_power_laplace', {})]
+    for i in range(ck.n(15, 90)):
+        kern, extra = kernels[i % 5]
+        n = int(nr.integers(14, 40)); d = int(nr.integers(2, 5)); nout = [1, 2][i % 2]
+        iters = [2, 3, 4][i % 3]
+        metric = ['mse', 'accuracy'][(i // 5) % 2]
+        X = torch.tensor(nr.standard_normal((n, d)), dtype=torch.float32); Xv = torch.tensor(nr.standard_normal((12, d)), dtype=torch.float32)
+        if metric == 'accuracy':
+            K = 2 + i % 2
+            Y = torch.eye(K)[torch.tensor(nr.integers(0, K, size=n))]; Yv = torch.eye(K)[torch.tensor(nr.integers(0, K, size=12))]
+        else:
+            Y = torch.tensor(nr.standard_normal((n, nout)), dtype=torch.float32); Yv = torch.tensor(nr.standard_normal((12, nout)), dtype=torch.float32)
+        xr.seed_all(300 + i + ck.seed)
+        m = xr.RealRFM(kernel=kern, iters=iters, bandwidth=2.0, exponent=[1.0, 1.2][i % 2], device='cpu', diag=bool((i // 2) % 2), verbose=False,
+                       tuning_metric=metric, bandwidth_mode=['constant', 'adaptive'][(i // 3) % 2] if kern != 'sum_power_laplace' else 'constant', **extra)
+        snaps = []
+        orig_cvm = m._compute_validation_metrics
+
+        # odd fits: the true validation score is replaced by a scripted one whose optimum sits at a chosen evaluation strictly inside the
+        # loop (everything else — solves, AGOP updates, snapshots, restore — stays real)
+        target = 1 + (i // 2) % max(1, iters - 1)
+        script = None if i % 2 == 0 else [(1.0 + abs(k - target)) * (-1.0 if metric == 'accuracy' else 1.0) + (2.0 if metric == 'accuracy' else 0.0) * 0 for k in range(iters + 2)]
+
+        def cvm(*a, _m=m, _orig=orig_cvm, _script=script, **kw):
+            out = _orig(*a, **kw)
+            if _script is not None:
+                out = dict(out); out[_m.tuning_metric] = _script[len(snaps)]
+            cp = lambda t: None if t is None else t.detach().clone()
+            snaps.append(dict(score=float(out[_m.tuning_metric]), w=cp(_m.weights), M=cp(_m.M), sqrtM=cp(_m.sqrtM), bw=float(_m.kernel_obj.bandwidth)))
+            return out
+        m._compute_validation_metrics = cvm
+        desc = dict(kind='real-fit', i=i, kernel=kern, n=n, d=d, iters=iters, metric=metric, diag=bool((i // 2) % 2), seed=ck.seed)
+        try:
+            with xr.quiet():
+                m.fit((X, Y), (Xv, Yv), iters=iters, reg=1e-2, return_best_params=True, early_stop_rfm=(i % 4 == 2), early_stop_multiplier=1.05, verbose=False)
+        except Exception as e:
+            ck.violation(f'real fit raised {e!r} on {desc}', dict(desc, error=repr(e)), key=json.dumps(dict(site='real-fit-raise', kernel=kern))); continue
+        scores = [s_['score'] for s_ in snaps]
+        best = (max if metric == 'accuracy' else min)(scores)
+        k0 = scores.index(best)
+        ck.case(dict(desc, scores=scores, first_best=k0), nontrivial=len(set(scores)) >= 2, sample=(i == 3))
+        ck.count(f'real fit: first best at evaluation {k0} of {len(scores)}'); ck.count(f'real fit kernel={kern}')
+        eq = lambda a, b: (a is None and b is None) or (a is not None and b is not None and a.shape == b.shape and torch.equal(a, b))
+        want = snaps[k0]
+        bad_pieces = [nm for nm, a, b in (('weights', m.weights, want['w']), ('M', m.M, want['M']), ('sqrtM', m.sqrtM, want['sqrtM'])) if not eq(a, b)]
+        if float(m.kernel_obj.bandwidth) != want['bw']:
+            bad_pieces.append('bandwidth')
+        if bad_pieces:
+            ck.violation(f'real fit: returned {bad_pieces} are not those of the first best evaluated iterate (evaluation {k0} of {len(scores)}, scores {scores}) on {desc}',
+                         dict(desc, scores=scores, first_best=k0, pieces=bad_pieces), key=json.dumps(dict(site='real-selection', pieces=bad_pieces)))
